@@ -1,5 +1,6 @@
 from collections import defaultdict
 from dataclasses import MISSING, fields
+from math import isfinite
 
 from .bases import AbstractMeta
 from .constants import CATCH_ALL, PACKAGE_NAME
@@ -520,8 +521,19 @@ def is_builtin(o):
     #     case True: pass
     #     case False: pass
     #     case builtins.Ellipsis: pass
-    if o in {None, True, False, ...}:
+    if o is None or o is True or o is False or o is ...:
         return True
+
+    # A value that can't be in-lined (via its `repr`) in generated code is not
+    # treated as a builtin here: it is un-hashable (i.e. mutable) such as a
+    # `list` or `dict`, or is a float -- `nan` or `inf` -- without a literal form.
+    try:
+        hash(o)
+    except TypeError:
+        return False
+
+    if isinstance(o, float) and not isfinite(o):
+        return False
 
     return getattr(o, '__class__', o).__module__ == 'builtins'
 
